@@ -27,7 +27,7 @@ import (
 )
 
 const (
-	timeout  = 2 * time.Second
+	timeout  = 4 * time.Second
 	parallel = 8
 )
 
